@@ -348,7 +348,7 @@ def _exc_entry(e):
     return {'err': [cls, ''.join(traceback.format_exception_only(type(e), e)).strip()]}
 
 
-def ext_tables(ctx, values, tys_json):
+def ext_tables(ctx, values, tys_json, bounds=()):
     """results of every external call the model may make on these values, computed with the real stdlib"""
     text = json.dumps(tys_json)
     lv = {}
@@ -410,12 +410,17 @@ def ext_tables(ctx, values, tys_json):
             if fn in ('Decimal', 'Fraction'):
                 numerics[repr(r)] = r
     import math as _m, operator as _op
+    bset = {}
+    for b in [0] + list(bounds):
+        if type(b) in (int, float, bool):
+            bset[repr(b)] = b
     for r in numerics.values():
-        for sym, o in (('>', _op.gt), ('>=', _op.ge), ('<', _op.lt), ('<=', _op.le), ('==', _op.eq), ('!=', _op.ne)):
-            try:
-                out.append(['cmp:' + sym + ':0', ctx.enc(r), {'ok': bool(o(r, 0))}])
-            except Exception as e:  # noqa
-                out.append(['cmp:' + sym + ':0', ctx.enc(r), _exc_entry(e)])
+        for brepr, b in bset.items():
+            for sym, o in (('>', _op.gt), ('>=', _op.ge), ('<', _op.lt), ('<=', _op.le), ('==', _op.eq), ('!=', _op.ne)):
+                try:
+                    out.append(['cmp:' + sym + ':' + brepr, ctx.enc(r), {'ok': bool(o(r, b))}])
+                except Exception as e:  # noqa
+                    out.append(['cmp:' + sym + ':' + brepr, ctx.enc(r), _exc_entry(e)])
         try:
             out.append(['isfinite', ctx.enc(r), {'ok': _m.isfinite(r)}])
         except Exception as e:  # noqa
@@ -477,22 +482,28 @@ def prepare(scen):
     return ctx
 
 
-def _lits(j, out):
+def _lits(j, out, bounds=None):
     if isinstance(j, list):
         for x in j:
-            _lits(x, out)
+            _lits(x, out, bounds)
     elif isinstance(j, dict):
         if 'lit' in j and isinstance(j['lit'], list):
             out.extend(j['lit'])
+        if isinstance(j.get('default'), dict) and 'value' in j['default']:
+            out.append(j['default']['value'])      # class-field defaults get serialised too
+        if 'valCmp' in j and bounds is not None:
+            bounds.append(j['valCmp'][1])
         for v in j.values():
-            _lits(v, out)
+            _lits(v, out, bounds)
 
 
 def finish_env(scen, ctx, values):
     """external-call tables for the given live values (input and, for round trips, intermediate results)"""
     values = list(values)
     lits = []
-    _lits([scen.get('ty'), scen.get('tys'), (scen.get('decl') or {}).get('classes')], lits)
+    bounds = []
+    _lits([scen.get('ty'), scen.get('tys'), (scen.get('decl') or {}).get('classes'), scen.get('decls')], lits, bounds)
+    scen['_bounds'] = bounds
     for _, vals in (scen.get('decl') or {}).get('enums', []):
         lits.extend(vals)
     for l in lits:
@@ -501,7 +512,7 @@ def finish_env(scen, ctx, values):
         except Exception:
             pass
     tys_json = [scen.get('ty'), scen.get('tys'), scen['env'].get('classes')]
-    ext, strs = ext_tables(ctx, values, tys_json)
+    ext, strs = ext_tables(ctx, values, tys_json, [ctx.dec(b) for b in scen.get('_bounds', [])])
     have = {json.dumps(e[:2], sort_keys=True) for e in scen['env'].get('ext', [])}
     scen['env'].setdefault('ext', []).extend(e for e in ext if json.dumps(e[:2], sort_keys=True) not in have)
     haves = {json.dumps(e[0], sort_keys=True) for e in scen['env'].get('strs', [])}
